@@ -414,10 +414,10 @@ class Interp:
             t = v.type if isinstance(v, Sig) else None
             return Sig(t, d.ite(ct, self.as_val(v), d.const(0)))
         if k == "read":
-            if e[1] not in self.mems:
-                raise RefError("read of undeclared memory")
             self.consumed.add(e[1])
             key = self.mem_key(e[1])
+            if key not in self.mems:
+                raise RefError("read of undeclared memory")
             if key not in self.reads:
                 if "__default0__" in self.reads:
                     return Sig(self.mems[key], self.d.const(0))
@@ -645,3 +645,106 @@ def referenced_names(e, acc=None):
             if isinstance(x, list):
                 referenced_names(x, acc)
     return acc
+
+
+# ======================================================================================
+#  AST utilities for twins
+# ======================================================================================
+
+
+def rename_expr(e, f):
+    if not isinstance(e, list):
+        return e
+    k = e[0] if e else None
+    if k == "v":
+        return ["v", f(e[1])]
+    if k in ("read", "out"):
+        return [k, f(e[1])]
+    if k == "call":
+        return ["call", f(e[1]), [rename_expr(a, f) for a in e[2]]]
+    if k in ("proj",):
+        T = e[2]
+        if isinstance(T, list) and T[0] == "typeof":
+            T = ["typeof", f(T[1])]
+        return ["proj", rename_expr(e[1], f), T]
+    if k == "lit":
+        T = e[1]
+        if isinstance(T, list) and T[0] == "typeof":
+            T = ["typeof", f(T[1])]
+        return ["lit", T, rename_expr(e[2], f)]
+    if k == "sel":
+        return ["sel", rename_expr(e[1], f), e[2]]
+    if k == "bundle":
+        return ["bundle", [rename_expr(a, f) for a in e[1]]]
+    if k in ("bin", "cmp"):
+        return [k, e[1], rename_expr(e[2], f), rename_expr(e[3], f)]
+    return [k] + [rename_expr(x, f) if isinstance(x, list) else x for x in e[1:]]
+
+
+def rename_stmt(s, f):
+    k = s[0]
+    if k == "input":
+        return ["input", f(s[1]), s[2], s[3]]
+    if k in ("int", "sig", "bun"):
+        return [k, f(s[1]), rename_expr(s[2], f)]
+    if k == "mem":
+        return ["mem", f(s[1]), s[2]]
+    if k == "write":
+        return ["write", f(s[1]), rename_expr(s[2], f), rename_expr(s[3], f) if s[3] is not None else None]
+    if k == "latch":
+        return ["latch", f(s[1]), rename_expr(s[2], f), rename_expr(s[3], f), rename_expr(s[4], f), s[5]]
+    if k == "place":
+        return ["place", f(s[1]), s[2], rename_expr(s[3], f), rename_expr(s[4], f), s[5]]
+    if k == "enable":
+        return ["enable", f(s[1]), rename_expr(s[2], f)]
+    if k == "func":
+        return ["func", f(s[1]), [[t, f(n)] for t, n in s[2]], [rename_stmt(b, f) for b in s[3]], rename_expr(s[4], f) if s[4] is not None else None]
+    if k == "for":
+        it = s[2]
+        if it[0] == "range":
+            it = ["range"] + [f(b) if isinstance(b, str) else b for b in it[1:]]
+        return ["for", f(s[1]), it, [rename_stmt(b, f) for b in s[3]]]
+    if k == "expr":
+        return ["expr", rename_expr(s[1], f)]
+    return s
+
+
+def rename_prog(stmts, prefix):
+    return [rename_stmt(s, lambda n: prefix + n) for s in stmts]
+
+
+def shift_places(stmts, dx, dy):
+    """move every constant-coordinate place by (dx, dy)"""
+    out = []
+    for s in stmts:
+        if s[0] == "place" and s[3][0] == "k" and s[4][0] == "k":
+            s = ["place", s[1], s[2], ["k", s[3][1] + dx], ["k", s[4][1] + dy], s[5]]
+        elif s[0] in ("func", "for"):
+            s = list(s)
+            s[3] = shift_places(s[3], dx, dy)
+        out.append(s)
+    return out
+
+
+def interleavings(p, q, limit, rnd):
+    """up to `limit` order-preserving merges of two statement lists (always P;Q, Q;P and zip)"""
+    res = [p + q, q + p]
+    z = []
+    for i in range(max(len(p), len(q))):
+        if i < len(p):
+            z.append(p[i])
+        if i < len(q):
+            z.append(q[i])
+    res.append(z)
+    while len(res) < limit:
+        a, b, m = list(p), list(q), []
+        while a or b:
+            if a and (not b or rnd.random() < 0.5):
+                m.append(a.pop(0))
+            else:
+                m.append(b.pop(0))
+        if m not in res:
+            res.append(m)
+        else:
+            break
+    return res[:limit]
